@@ -106,7 +106,7 @@ PROPS = {
         "timeout": {"quick": 400, "thorough": 3600},
     },
     "C08": {
-        "suites": ["c08conc", "c08sched", "c08lock", "c08slow"],
+        "suites": ["c08conc", "c08sched", "c08lock", "c08slow", "allocfault"],
         "assumptions": COMMON_ASSUME + [
             "'the reporting goroutine has ended' is observed by a goroutine dump after Close returned",
             "a second Close call that overlaps the first returns nil before the first has finished (limitation D5b, theorem concurrent_close_returns_early); the barrier is claimed for the winning caller",
@@ -171,7 +171,7 @@ PROPS = {
         "trusted_base": ["Model.Scope and Model.Instrument are tied by the differential on random histories"],
     },
     "C11": {
-        "suites": ["scope-c11", "c11conc"],
+        "suites": ["scope-c11", "c11conc", "c20cache"],
         "assumptions": COMMON_ASSUME + [
             "Model.Scope is sequential: one API call at a time (concurrency of these paths is C01/C02/C07/C09)",
             "the registry shard of a request is observed through a shim and given to the model as an input",
@@ -210,7 +210,7 @@ PROPS = {
         "timeout": {"quick": 300, "thorough": 3000},
     },
     "C13": {
-        "suites": ["c13", "c13fault"],
+        "suites": ["c13", "c13fault", "c12conc"],
         "assumptions": COMMON_ASSUME + [
             "a concurrent history is represented by the order in which its sends on metCh, its tag-cache accesses and its clock stores took effect (the queue totally orders the sends; cache and interner are lock protected and monotone); the bounded queue only delays senders",
             "the harness logs reports per producer goroutine; emitted metrics are matched to log entries by name and kind in per-producer order (names are distinct per producer), values / tags / timestamps of the matched pairs are then judged clause by clause; tally.internal.* telemetry sent by Flush is excluded from the matching",
